@@ -61,6 +61,7 @@ type call struct {
 	Cancelled  bool
 	MayCancel  bool
 	Deadline   time.Duration
+	TwinOf     *call         // the live submission whose chain this one repeats (lockstep / timed specs)
 	StartAt    time.Duration // fake time of launch
 	RootsKnown bool          // proxy calls: the proxy's distributor has had every opportunity to learn the logs' current roots
 	RootsMoved bool          // a log changed its accepted roots while the call ran
@@ -93,15 +94,16 @@ type refresh struct {
 
 // World is the submit world.
 type World struct {
-	s      *kernel.Sim
-	roots  []*oracle.Cert
-	logs   []*logSpec
-	byURL  map[string]*logSpec
-	ll     *loglist3.LogList
-	policy string // chrome | apple
-	dist   *submission.Distributor
-	ctx    context.Context
-	cancel context.CancelFunc
+	twinOwed *call // lockstep / timed specs: a submission with a deadline whose patient twin is still to be started
+	s        *kernel.Sim
+	roots    []*oracle.Cert
+	logs     []*logSpec
+	byURL    map[string]*logSpec
+	ll       *loglist3.LogList
+	policy   string // chrome | apple
+	dist     *submission.Distributor
+	ctx      context.Context
+	cancel   context.CancelFunc
 
 	calls       []*call
 	maxCalls    int
@@ -280,6 +282,13 @@ func (w *World) Init(s *kernel.Sim) {
 		// args: group, logURL, leaf id
 		s.Seam(nil, "race:"+args[2], point, args[0]+"|"+args[1], nil)
 	}
+	// two submissions may carry one leaf (twins): the call's own name tells them apart
+	verifhook.CallerID = func(ctx context.Context) string {
+		if cl, _ := ctx.Value(callKey).(*call); cl != nil {
+			return cl.Party
+		}
+		return ""
+	}
 	verifhook.Session = func(group string, urls []string) []string {
 		perm := kernel.HashPerm(s.Seed, group+"|"+strings.Join(urls, ","), len(urls))
 		out := make([]string, len(urls))
@@ -417,6 +426,15 @@ func (w *World) newCall() *call {
 	c.Leaf = oracle.Build(oracle.CertSpec{CN: fmt.Sprintf("leaf %d", c.ID), Serial: int64(5000 + c.ID), Key: oracle.Keys("p256")[3+c.ID%5], Issuer: w.roots[c.Root],
 		NotBefore: w.epoch, NotAfter: w.epoch.AddDate(0, c.Months, 0), Exts: exts})
 	c.RawChain = [][]byte{c.Leaf.DER, w.roots[c.Root].DER}
+	if len(w.calls) > 0 && t.Chance(1, 4) {
+		// the very same chain again (a client that retries, two front ends of one CA): whatever the distributor shares
+		// between submissions of one chain, each caller is owed its own answer. (The Yield hooks name a GetSCTs call by
+		// its caller - verifhook.CallerID - not by its leaf: two calls with one leaf once shared their seam names,
+		// which the recheck reported as NONDETERMINISM on the unchanged tree.)
+		o := w.calls[t.Intn(len(w.calls))]
+		c.Root, c.Months, c.Pre, c.Leaf, c.RawChain = o.Root, o.Months, o.Pre, o.Leaf, o.RawChain
+		w.s.Probe("same-chain-again")
+	}
 	c.Kind = "dist"
 	if t.Chance(1, 3) {
 		c.Kind = "getscts"
@@ -428,6 +446,25 @@ func (w *World) newCall() *call {
 		c.Deadline = []time.Duration{500 * time.Millisecond, 3 * time.Second, 30 * time.Second}[t.Intn(3)]
 	}
 	c.MayCancel = t.Chance(1, 5)
+	{
+		// Twins: a submission with a deadline, and - started while it is under way, through the same distributor - a
+		// patient submission (no deadline, never cancels) of the very same chain.
+		if o := w.twinOwed; o != nil {
+			w.twinOwed = nil
+			o.mu.Lock()
+			done := o.Done
+			o.mu.Unlock()
+			if !done {
+				c.Root, c.Months, c.Pre, c.Leaf, c.RawChain = o.Root, o.Months, o.Pre, o.Leaf, o.RawChain
+				c.Kind, c.Deadline, c.MayCancel, c.TwinOf = o.Kind, 0, false, o
+				w.s.Probe("twin-of-live-call")
+			}
+		} else if c.Kind != "getscts" && w.conc >= 2 && len(w.calls)+1 < w.maxCalls && t.Chance(1, 4) {
+			c.Deadline = []time.Duration{500 * time.Millisecond, 3 * time.Second}[t.Intn(2)]
+			c.MayCancel = false
+			w.twinOwed = c
+		}
+	}
 	w.calls = append(w.calls, c)
 	w.partyMu.Lock()
 	if w.byParty == nil {
@@ -617,7 +654,11 @@ func (w *World) Options(s *kernel.Sim) []kernel.Option {
 	}
 	if s.FaultsOn() {
 		if len(w.calls) < w.maxCalls && w.active < w.conc {
-			opts = append(opts, kernel.Option{Key: "start call", Weight: 8, Apply: func() {
+			sw := 8
+			if w.twinOwed != nil {
+				sw = 40 // the twin is due while its original is under way
+			}
+			opts = append(opts, kernel.Option{Key: "start call", Weight: sw, Apply: func() {
 				c := w.newCall()
 				c.List = -1
 				if c.Kind == "proxy" {
@@ -668,6 +709,17 @@ func (w *World) Options(s *kernel.Sim) []kernel.Option {
 				continue
 			}
 			opts = append(opts, s.AdvanceOpt(d, weights[i]))
+		}
+		// an impatient original with a patient twin under way: its deadline is the interesting instant
+		for _, c := range w.calls {
+			o := c.TwinOf
+			if o == nil || c.Done || o.Done || o.Deadline == 0 || c.ctx == nil {
+				continue
+			}
+			if left := o.StartAt + o.Deadline - s.Now() + time.Millisecond; left > 0 && left < heldLimit {
+				opts = append(opts, s.AdvanceOpt(left, 6))
+				break
+			}
 		}
 	}
 	return opts
